@@ -111,6 +111,7 @@ type Result struct {
 	Findings     []Finding      `json:"findings"`
 	Notes        []string       `json:"notes,omitempty"`
 	distinct     map[string]bool
+	perClass     map[string]int
 }
 
 func NewResult(prop string) *Result {
@@ -135,10 +136,18 @@ func (r *Result) Case(canon string, nontrivial bool) {
 	}
 }
 
+// Add records a finding. At most 12 findings with the same (kind, what) are kept and 400 in all, so that one failure that
+// shows on hundreds of inputs does not crowd out a different one found later in the same run.
 func (r *Result) Add(f Finding) {
-	if len(r.Findings) < 200 {
-		r.Findings = append(r.Findings, f)
+	if r.perClass == nil {
+		r.perClass = map[string]int{}
 	}
+	k := f.Kind + "\x00" + f.What
+	if r.perClass[k] >= 12 || len(r.Findings) >= 400 {
+		return
+	}
+	r.perClass[k]++
+	r.Findings = append(r.Findings, f)
 }
 
 func (r *Result) Write(path string) error {
